@@ -12,6 +12,7 @@ import (
 
 	"nokvverif/internal/pbt"
 	"nokvverif/internal/plain"
+	"nokvverif/internal/txm"
 	"pgregory.net/rapid"
 )
 
@@ -28,6 +29,22 @@ var profile = plain.Profile{
 
 func gen(t *rapid.T) plain.Case { return plain.Gen(t, profile) }
 
+// txProfile drives the same value-log paths through transactions (several versions per key).
+var txProfile = txm.Profile{
+	Name:       "c08",
+	OpKinds:    []string{"begin", "set", "set", "set", "set", "del", "commit", "commit", "commit", "get", "get", "iter", "maint", "maint", "maint", "reopen"},
+	MaintKinds: []string{"rotate", "rotate", "compact", "once", "rewrite", "rewrite", "rewrite", "gc", "gc"},
+	ValueSizes: []int{31, 32, 33, 100, 1000, 9000, 30000, 40000},
+	MaxOps:     60,
+	MaxKeys:    4,
+}
+
+func genTx(t *rapid.T) txm.Case {
+	c := txm.Gen(t, txProfile)
+	c.Cfg.ValueThreshold = 32
+	return c
+}
+
 func TestCheck(t *testing.T) {
 	s := &pbt.Suite{ID: "C08", Level: "exploration",
 		Rule: "rapid-generated plain-API histories (5..60 steps) with value threshold 32, value sizes {0,31,32,33,100,1000,9000,30000,70000} (70000 exceeds the smallest value-log file), value-log file size in {64K,256K,1M}, 1..3 buckets, memtable engine drawn; maintenance steps: direct rewrite of any sealed value-log file (bypassing the sampling heuristic), RunValueLogGC with ratio in {0.01,0.5,0.99}, rotate+flush, compactions, reopen. Oracle: last-writer-wins map, byte-for-byte through Get after every step. Non-trivial = read of a separated (value-log) value of a key that was overwritten or deleted before, after at least one successful rewrite/GC step following its last write; distinct by case content.",
@@ -35,5 +52,6 @@ func TestCheck(t *testing.T) {
 			"a rewrite is requested only for sealed files (fid below the active one), as runGC does"},
 	}
 	pbt.Add(s, &pbt.Spec[plain.Case]{Name: "history", Gen: gen, Run: plain.Run, Quick: 320, Thorough: 20000, Shards: 16})
+	pbt.Add(s, &pbt.Spec[txm.Case]{Name: "txn", Gen: genTx, Run: txm.Run, Quick: 240, Thorough: 15000, Shards: 16})
 	s.Main(t)
 }
